@@ -131,6 +131,13 @@ def _cell_value(field: str, text: Any) -> Any:
         return None
     if field in NUMERIC:
         return float(text)
+    if field == "timestamp" and isinstance(text, str):
+        from rpv.gen import TS_FORMAT, render_ts
+
+        try:
+            return render_ts(text)  # same instant and offset, one of several export formats
+        except ValueError:
+            return text  # a deliberately faulty timestamp (C12): as given
     return text
 
 
